@@ -1,4 +1,5 @@
 import PSO.Proofs.BatteriesRefine
+import PSO.Proofs.BatteriesSpec
 /-!
 # C15 — batteries behave like the Python containers they mimic, on every replica
 
@@ -215,5 +216,51 @@ theorem C15_set_replicas_equal_counterexample :
     cases s with
     | nil => exact absurd rfl hs
     | cons a t => simp only [List.getLastD_cons]; exact List.getLastD_mem_cons ..
+
+/-! ## the container specifications mean what they say (they are additionally diffed against the real
+builtins on every check) -/
+
+/-- `list.sort(reverse=r)`: a permutation of the list, ascending (`r = False`, also the default) or
+descending (`r = True`). -/
+theorem C15_list_sort_spec (l : List Int) (reverse : Bool) :
+    (PyList.sort l reverse).Perm l ∧
+    (reverse = false → (PyList.sort l reverse).Pairwise (· ≤ ·)) ∧
+    (reverse = true → (PyList.sort l reverse).Pairwise (· ≥ ·)) :=
+  sort_spec l reverse
+
+/-- the dict representation is a finite map: keys stay distinct under every operation sequence … -/
+theorem C15_dict_keys_distinct (ops : List DictOp) (s : ReplDict.State) (h : (PyDict.keys s.data).Nodup) :
+    (PyDict.keys (runOps ReplDict.step s ops).1.data).Nodup :=
+  runOps_inv ReplDict.step DictWF dict_step_wf ops s h
+
+example : (PyDict.keys ReplDict.init.data).Nodup := List.nodup_nil
+
+/-- … `d[k] = v` changes the value of `k` only, and (with distinct keys) deleting `k` removes `k` only. -/
+theorem C15_dict_map_laws (d : PyDict.D) (k v k' : Int) :
+    PyDict.lookup (PyDict.setitem d k v) k' = (if k' = k then some v else PyDict.lookup d k') ∧
+    ((PyDict.keys d).Nodup →
+      PyDict.lookup (PyDict.delete d k) k' = (if k' = k then none else PyDict.lookup d k')) :=
+  ⟨lookup_setitem d k v k', lookup_delete d k k'⟩
+
+/-- the set representation stays canonical (strictly increasing) under every operation sequence and
+every choice made by `pop`, and canonical representations with the same members are EQUAL — so
+"same contents" is equality of states and a function of the state is a function of the abstract set. -/
+theorem C15_set_canonical (choose : PySet.S → Int) (ops : List SetOp) (s : ReplSet.State)
+    (h : s.data.Pairwise (· < ·)) :
+    (runOps (ReplSet.step choose) s ops).1.data.Pairwise (· < ·) ∧
+    (∀ t : PySet.S, t.Pairwise (· < ·) → (∀ x, x ∈ (runOps (ReplSet.step choose) s ops).1.data ↔ x ∈ t) →
+      (runOps (ReplSet.step choose) s ops).1.data = t) := by
+  have hw := runOps_inv (ReplSet.step choose) (fun s => SetWF s.data) (set_step_wf choose) ops s h
+  exact ⟨hw, fun t ht hm => set_ext _ t hw ht hm⟩
+
+example : ReplSet.init.data.Pairwise (· < ·) := List.Pairwise.nil
+
+/-- finite-set laws of the representation: `add`, `update`, `discard`/`remove`, `pop`. -/
+theorem C15_set_laws (s : PySet.S) (h : s.Pairwise (· < ·)) (x y : Int) (o : List Int) (choose : PySet.S → Int) :
+    (y ∈ PySet.add x s ↔ y = x ∨ y ∈ s) ∧
+    (y ∈ PySet.update s o ↔ y ∈ s ∨ y ∈ o) ∧
+    (y ∈ PySet.discard s x ↔ y ≠ x ∧ y ∈ s) ∧
+    (s ≠ [] → ∃ e r, PySet.pop choose s = .ok (e, r) ∧ e ∈ s ∧ ∀ z, z ∈ r ↔ z ≠ e ∧ z ∈ s) :=
+  ⟨mem_add x y s, mem_update s o y, mem_erase_wf s x y h, set_pop_spec choose s h⟩
 
 end PSO.C15
